@@ -21,6 +21,17 @@ func c13Ep(i int) endpoint.Endpoint {
 	return endpoint.Endpoint{Host: c13Hosts[i], Port: int32(1000 + i), Weight: 100}
 }
 
+// the same endpoint (identified by host) as a caller may name it in Add/Remove: the fields that
+// are not part of its identity (timeout, weight) may differ from the installed copy
+func c13EpAs(i int) endpoint.Endpoint {
+	ep := c13Ep(i)
+	if vapi.Bool("othercopy") {
+		ep.Timeout = 2500
+		ep.Weight = 7
+	}
+	return ep
+}
+
 var c13Lists [8][]endpoint.Endpoint
 
 // the caller's list for a subset, built once per run and passed to every Refresh of that subset
@@ -83,12 +94,12 @@ func c13History(s *ModHash, steps int) [3]bool {
 			s.Refresh(c13List(mask))
 		case 1:
 			i := vapi.Choice("host", 3)
-			err := s.Add(c13Ep(i))
+			err := s.Add(c13EpAs(i))
 			vapi.Check((err != nil) == member[i], "Add fails exactly for an existing member")
 			member[i] = true
 		case 2:
 			i := vapi.Choice("host", 3)
-			err := s.Remove(c13Ep(i))
+			err := s.Remove(c13EpAs(i))
 			vapi.Check((err != nil) == !member[i], "Remove fails exactly for a non-member")
 			member[i] = false
 		case 3:
